@@ -9,6 +9,19 @@ import (
 )
 
 func debugDump(what, repo string) int {
+	if what == "knownfuncs" {
+		dumpKnownFuncs(repo)
+		return 0
+	}
+	if what == "inlined" {
+		ir := inlineNewHelpers(repo)
+		fmt.Println("inlined:", ir.Inlined, "reason:", ir.Reason)
+		for path, b := range ir.Overlay {
+			fmt.Println("=====", path)
+			os.Stdout.Write(b)
+		}
+		return 0
+	}
 	mod, pats := "grpcgcp", []string{".", "./multiendpoint", "./grpc_gcp"}
 	if i := strings.Index(what, "@"); i > 0 && strings.HasPrefix(what, "mod:") {
 		// mod:<dir>:<pat,pat>@ssa:<fn>
